@@ -490,8 +490,8 @@ Definition cls_step (cls : list closure) (o : op) : list closure :=
 Definition cls_at (cls : list closure) (pre : list op) : list closure := fold_left cls_step pre cls.
 
 Section Hist.
-Variable child_out : list (string * string) -> list string -> string.
-Variable child_exit : list (string * string) -> list string -> nat.
+Variable child_out : list (string * string) -> list (string * string) -> list string -> string.
+Variable child_exit : list (string * string) -> list (string * string) -> list string -> nat.
 Variable h0 : heap.                       (* the arrays the caller can see: everything that exists before *)
 
 Definition op_ok (o : op) : Prop :=
@@ -525,7 +525,7 @@ Definition spec_obs (cls : list closure) (penv : list (string * string)) (o : op
       | Some cl => finish_closure child_out child_exit (cl_kind cl) penv (spec_argv cls penv o)
       | None => OBad
       end
-  | CallDirect f _ _ _ => finish_direct child_out child_exit f penv (spec_argv cls penv o)
+  | CallDirect f emap _ _ => finish_direct child_out child_exit f emap penv (spec_argv cls penv o)
   end.
 
 Lemma cls_ok_step : forall cls o, cls_ok cls -> op_ok o -> cls_ok (cls_step cls o).
@@ -624,9 +624,9 @@ Lemma thm_closure_is_run : forall penv cls pre c extra post cl,
   let argv := map (expand_env env_i) (cl_cmd cl :: contents h0 (cl_baked cl) ++ contents h0 extra) in
   exists h', nth_error (run_history child_out child_exit true penv cls h0 (pre ++ CallClosure c extra :: post)) (length pre)
              = Some (OCall argv
-                           (match cl_kind cl with KRun => None | KOut => Some (trim_nl (child_out env_i argv)) end)
-                           (match cl_kind cl with KRun => if verbose env_i then child_out env_i argv else "" | KOut => "" end)
-                           (child_exit env_i argv), h').
+                           (match cl_kind cl with KRun => None | KOut => Some (trim_nl (child_out env_i [] argv)) end)
+                           (match cl_kind cl with KRun => if verbose env_i then child_out env_i [] argv else "" | KOut => "" end)
+                           (child_exit env_i [] argv), h').
 Proof.
   intros penv cls pre c extra post cl Hcls Hok Hc env_i argv.
   destruct (history_nth pre penv cls h0 (CallClosure c extra) post Hcls (firstn_all h0) Hok) as (h' & H & _).
@@ -638,7 +638,7 @@ Lemma thm_direct_call : forall penv cls pre f emap cmd args post,
   let env_i := env_at penv pre in
   let argv := map (expand (mapping (if uses_map f then emap else []) env_i)) (cmd :: contents h0 args) in
   exists h', nth_error (run_history child_out child_exit true penv cls h0 (pre ++ CallDirect f emap cmd args :: post)) (length pre)
-             = Some (finish_direct child_out child_exit f env_i argv, h').
+             = Some (finish_direct child_out child_exit f emap env_i argv, h').
 Proof.
   intros penv cls pre f emap cmd args post Hcls Hok env_i argv.
   destruct (history_nth pre penv cls h0 (CallDirect f emap cmd args) post Hcls (firstn_all h0) Hok) as (h' & H & _).
@@ -688,7 +688,7 @@ Lemma thm_closure_is_run_before_repair_refuted : forall child_out child_exit,
   exists h0 penv pre c extra post,
     Forall (op_ok h0) (pre ++ CallClosure c extra :: post) /\
     exists ob h', nth_error (run_history child_out child_exit false penv [] h0 (pre ++ CallClosure c extra :: post)) (length pre) = Some (ob, h') /\
-                  ob = OCall ["echo"; "one"] (Some (trim_nl (child_out (env_at penv pre) ["echo"; "one"]))) "" (child_exit (env_at penv pre) ["echo"; "one"]) /\
+                  ob = OCall ["echo"; "one"] (Some (trim_nl (child_out (env_at penv pre) [] ["echo"; "one"]))) "" (child_exit (env_at penv pre) [] ["echo"; "one"]) /\
                   spec_argv h0 (cls_at [] pre) (env_at penv pre) (CallClosure c extra) = ["echo"; "two"] /\
                   firstn (length h0) h' <> h0.
 Proof.
@@ -745,8 +745,8 @@ Definition nv_ops : list op :=
    CallClosure 1 nil_slice; SetEnv "MAGEFILE_VERBOSE" "1"; CallClosure 1 nil_slice;
    CallDirect FOutput [] "echo" (sl 0 1 2 3); CallDirect FRunWith [("V", "m")] "$C" (sl 1 0 1 1)].
 Definition nl : string := String (ascii_of_nat 10) EmptyString.
-Definition nv_out (_ : list (string * string)) (argv : list string) : string := String.concat " " (tl argv) ++ nl.
-Definition nv_exit (_ : list (string * string)) (argv : list string) : nat := if existsb (String.eqb "--exit=3") argv then 3 else 0.
+Definition nv_out (_ _ : list (string * string)) (argv : list string) : string := String.concat " " (tl argv) ++ nl.
+Definition nv_exit (_ _ : list (string * string)) (argv : list string) : nat := if existsb (String.eqb "--exit=3") argv then 3 else 0.
 
 Lemma nonvacuous_c16 :
   Forall (op_ok nv_h0) nv_ops /\
